@@ -211,7 +211,7 @@ fn dirty_vals(rng: &mut Rng, k: &Knobs) -> Vals {
     v
 }
 
-fn generate(rng: &mut Rng, property: &str) -> Scn {
+fn generate(rng: &mut Rng, property: &str, deep: bool) -> Scn {
     let extreme = property == "C20";
     let knobs = gen_knobs(rng, extreme);
     let n_pool = rng.range(1, 3) as usize;
@@ -221,7 +221,7 @@ fn generate(rng: &mut Rng, property: &str) -> Scn {
     // bookkeeping: which object indices are alive, and the spec index they descend from
     let mut alive: Vec<(usize, usize)> = (0..n_pool).map(|i| (i, i)).collect();
     let mut next_index = n_pool;
-    let n_ops = rng.range(4, 40) as usize;
+    let n_ops = if deep && rng.chance(0.33) { rng.range(40, 160) as usize } else { rng.range(4, 40) as usize };
     let mut ops: Vec<(TOp, &'static str)> = Vec::new();
     let mut last_t: f32 = 0.0;
     let p_start = *rng.pick(&[0.0, 0.1, 0.3]);
@@ -681,8 +681,8 @@ impl Engine for TimelineEngine {
     fn properties(&self) -> &'static [&'static str] {
         &["C09", "C20"]
     }
-    fn generate(&self, rng: &mut Rng, property: &str, _tier: Tier) -> Scn {
-        generate(rng, property)
+    fn generate(&self, rng: &mut Rng, property: &str, tier: Tier) -> Scn {
+        generate(rng, property, tier == Tier::Thorough)
     }
     fn execute(&self, scn: &Scn, property: &str) -> RunOutcome {
         execute(scn, property)
